@@ -130,6 +130,36 @@ HunkSubset(h, i, w) ==
   IN  /\ cm \subseteq LinesOf(i)
       /\ Cardinality(CommonPos(i, cm)) = n
       /\ \A k \in 0..n : SegAt(i, cm, k) \in {SegAt(h, cm, k), SegAt(w, cm, k)}
+\* index content i is "between" HEAD and the work tree at LINE granularity (git add -p with edited hunks):
+\* inside every hunk it keeps some of HEAD's lines and takes some of the work tree's lines (old lines first)
+RECURSIVE IsSubseq(_, _)
+IsSubseq(a, b) == IF a = <<>> THEN TRUE
+                  ELSE IF b = <<>> THEN FALSE
+                  ELSE IF Head(a) = Head(b) THEN IsSubseq(Tail(a), Tail(b)) ELSE IsSubseq(a, Tail(b))
+LineSubset(h, i, w) ==
+  LET cm == Common(h, w)
+      n  == Cardinality(cm)
+  IN  /\ cm \subseteq LinesOf(i)
+      /\ Cardinality(CommonPos(i, cm)) = n
+      /\ \A k \in 0..n :
+            LET seg == SegAt(i, cm, k)
+            IN \E j \in 0..Len(seg) : /\ IsSubseq(SubSeq(seg, 1, j), SegAt(h, cm, k))
+                                      /\ IsSubseq(SubSeq(seg, j + 1, Len(seg)), SegAt(w, cm, k))
+\* all subsequences of a sequence
+RECURSIVE SubSeqs(_)
+SubSeqs(x) == IF x = <<>> THEN { <<>> }
+              ELSE LET r == SubSeqs(Tail(x)) IN r \cup { <<Head(x)>> \o y : y \in r }
+\* every index content between h and w
+RECURSIVE Between(_, _, _, _)
+Between(h, w, cm, k) ==   \* contents for gaps k..n, each followed by its closing common line
+  LET n == Cardinality(cm)
+      segs == { a \o b : a \in SubSeqs(SegAt(h, cm, k)), b \in SubSeqs(SegAt(w, cm, k)) }
+  IN  IF k = n THEN segs
+      ELSE LET closing == w[KthSmallest(CommonPos(w, cm), k + 1)]
+               rest == Between(h, w, cm, k + 1)
+           IN { sg \o <<closing>> \o r : sg \in segs, r \in rest }
+AllBetween(h, w) == Between(h, w, Common(h, w), 0)
+
 \* stage hunk k of file content: replace HEAD's segment by the work tree's
 RECURSIVE Concat(_, _, _)
 Concat(F(_), a, b) == IF a > b THEN <<>> ELSE F(a) \o Concat(F, a + 1, b)
@@ -233,7 +263,20 @@ SplitFile(D, Wf, If, tp, tc, work) ==
       com  == IF inPS THEN Added(tp, tc) ELSE {}
       un0  == IF inPS THEN Added(tc, work) ELSE {}
       pure == IF inPS THEN PureIns(tc, work) ELSE {}
-      un   == un0 \ (com \ pure)
+      \* a work-tree line that REPLACES a line this commit added counts as committed (it was committed, then
+      \* changed again).  Before the fix of D19 the code compared work-tree numbers with commit numbers
+      \* directly: deviation "overlap_filter_mixes_coordinates".
+      replaced(n) == \* commit line that work-tree line n replaces (0 = none): same offset inside its hunk
+        LET cm0 == Common(tc, work)
+            ps  == { i \in 1..(n - 1) : work[i] \in cm0 }
+            ws  == IF ps = {} THEN 0 ELSE Max(ps)                      \* last common line above n (work)
+            cs  == IF ps = {} THEN 0 ELSE PosOfLine(tc, work[ws])      \* ... and in the commit
+            off == n - ws                                            \* 1-based offset inside the hunk
+            nx  == { i \in (cs + 1)..Len(tc) : tc[i] \in cm0 }
+            oc  == (IF nx = {} THEN Len(tc) + 1 ELSE Min(nx)) - cs - 1  \* old-side size of the hunk
+        IN  IF off <= oc THEN cs + off ELSE 0
+      un   == IF "overlap_filter_mixes_coordinates" \in D THEN un0 \ (com \ pure)
+              ELSE { n \in un0 : n \in pure \/ replaced(n) \notin com }
       \* work-tree line -> commit line: undo the net shift (added - removed) of every unstaged hunk above it.
       \* (Before the fix of D12 the code subtracted every unstaged added line above, also for replacements:
       \* deviation "wd_to_commit_ignores_unstaged_deletions".)
@@ -294,8 +337,10 @@ C02_Carried ==
     \A f \in File : \A n \in DOMAIN tree[c][f] :
       (NewUid(c, f, n) /\ truth[tree[c][f][n][1]] # H) => NoteAt(c, f, n) = truth[tree[c][f][n][1]]
 \* C01: only lines the commit added are listed for it
+\* (notes written by the rebase / cherry-pick replay list, per file, every AI line of the file so far - also
+\* lines an earlier rewritten commit added; blame never reads those entries, so the clause judges commits only)
 C01_OnlyAdded ==
-  \A c \in 1..MaxCommit : Made(c) =>
+  \A c \in 1..MaxCommit : (Made(c) /\ ckind[c] \notin {"rebase", "cherry"}) =>
     \A f \in File : \A n \in DOMAIN notes[c].files[f] :
       NoteAt(c, f, n) # H => (n \in DOMAIN tree[c][f] /\ GitAdded(c, f, n))
 \* C03: nothing is credited to a session that wrote no part of it (notes)
@@ -403,7 +448,7 @@ Edit(who, kind, f, c) ==
            \* agent protocol: an agent starts editing from a checkpointed state (the pre-edit human checkpoint)
            /\ (who # H => \A g \in File : dirty[g] = who \/ (dirty[g] = None /\ Settled(g)))
            /\ Len(c) <= MaxLines
-           /\ HunkSubset(HeadTree[f], idx[f], c))
+           /\ LineSubset(HeadTree[f], idx[f], c))
   /\ LET fresh == { u \in UidsOf(c) : u >= nu }
      IN /\ truth' = [u \in 1..MaxUid |-> IF u \in fresh THEN who ELSE truth[u]]
         /\ nu' = IF fresh = {} THEN nu ELSE Max(fresh) + 1
@@ -485,11 +530,16 @@ Stage(f, c, kind) ==
   /\ UNCHANGED <<truth, nu, der, dirty, stash, snote, ops>>
   /\ Step([a |-> "Stage", f |-> f, c |-> c, kind |-> kind])
 
-PartitionOK == \A f \in File : HunkSubset(HeadTree[f], idx[f], wt[f])
+PartitionOK == \A f \in File : LineSubset(HeadTree[f], idx[f], wt[f])
 
 GenStage ==
   \E f \in File :
     \/ "add" \in Alphabet /\ Stage(f, wt[f], "file")
+    \/ /\ "add_lines" \in Alphabet
+       /\ \E c \in AllBetween(HeadTree[f], wt[f]) :
+            /\ c # wt[f] /\ c # HeadTree[f] /\ ~HunkSubset(HeadTree[f], c, wt[f])
+            /\ Cardinality(UidsOf(c)) = Len(c)        \* a line and its re-indented copy never coexist
+            /\ Stage(f, c, "lines")
     \/ /\ "add_hunk" \in Alphabet
        /\ HunkSubset(HeadTree[f], idx[f], wt[f])
        /\ \E k \in 0..Cardinality(Common(HeadTree[f], wt[f])) :
